@@ -237,6 +237,62 @@ def runScan (H : Format.HashFn) (D : Format.Decomp) (f : Bytes) (ops : List Char
     return ("OK " ++ " ".intercalate outs.toList, impl.map fun _ => ok)
   | _ => return ("ERR open", impl.map fun i => i == ["ERR", "open"])
 
+
+/-! ### C05 / C17: the download callbacks -/
+
+/-- libc's answers as logged by the harness (`rx=<which>:<subject>:<rc>:so1:eo1:so2:eo2`, `rc=<pattern>:<rc>`) -/
+def mkRx (toks : List String) : Dl.Rx :=
+  let rxs : List (String × Bytes × Bool × Nat × Nat × Nat × Nat) := toks.filterMap fun t =>
+    if t.startsWith "rx=" then
+      match (t.drop 3).toString.splitOn ":" with
+      | [w, subj, rc, a, b, c, d] =>
+        -- an unset group is reported as -1 (only ever with the closing-delimiter pattern, whose groups are not used)
+        match parseHex subj, a.toInt?, b.toInt?, c.toInt?, d.toInt? with
+        | some sb, some a, some b, some c, some d => some (w, sb, rc == "0", a.toNat, b.toNat, c.toNat, d.toNat)
+        | _, _, _, _, _ => none
+      | _ => none
+    else none
+  let rcs : List (Bytes × Bool) := toks.filterMap fun t =>
+    if t.startsWith "rc=" then
+      match (t.drop 3).toString.splitOn ":" with
+      | [pat, rc] => (parseHex pat).map fun p => (p, rc == "0")
+      | _ => none
+    else none
+  let look (w : String) (s : Bytes) := rxs.find? fun e => e.1 == w && e.2.1 == s
+  { comp := fun pat => match rcs.find? (fun e => e.1 == pat) with | some e => e.2 | none => false
+    hdr := fun s => match look "h" s with
+      | some (_, _, true, a, b, _, _) => some (a, b)
+      | _ => none
+    part := fun _ s => match look "p" s with
+      | some (_, _, true, a, b, c, d) => some (a, b, c, d)
+      | _ => none
+    endm := fun _ s => match look "e" s with
+      | some (_, _, ok, _, _, _, _) => ok
+      | none => false }
+
+/-- the fragments the harness cuts the body into -/
+partial def dlFragments (body : Bytes) (cuts : String) : List Bytes :=
+  let every : Option Nat := if cuts.startsWith "b" then (cuts.drop 1).toString.toNat? else none
+  let cl : List Nat := if every.isSome || cuts == "-" then [] else (cuts.splitOn ",").filterMap (·.toNat?)
+  let rec go (rest : Bytes) (cl : List Nat) (first : Bool) (acc : Array Bytes) : Array Bytes :=
+    if rest.isEmpty && !first then acc else
+    let (len, cl) := match every, cl with
+      | some n, _ => (min rest.length n, [])
+      | none, c :: cs => (min rest.length c, cs)
+      | none, [] => (rest.length, [])
+    let acc := acc.push (rest.take len)
+    if len == 0 && rest.isEmpty then acc else go (rest.drop len) cl false acc
+  (go body cl true #[]).toList
+
+def showNats (l : List Nat) : String := if l.isEmpty then "-" else ",".intercalate (l.map toString)
+
+def parseExpect (s : String) (implRange : String) : PredDl.Expect :=
+  -- the expectation holds for the request the response was built for; another request: nothing is expected
+  match s.splitOn ":" with
+  | ["wf", rs] => if rs == implRange then .wf else .any
+  | ["bad", k, rs] => if rs == implRange then (match k.toNat? with | some k => .bad k | none => .any) else .any
+  | _ => .any
+
 /-! ### C12: io.c under fault schedules -/
 
 def parseSched (s : String) : Option (List IoFault.Fault) :=
@@ -514,6 +570,46 @@ def handleIO (op : String) (args : List String) (impl : Option (List String)) : 
         par.length == n && ser.length == n && (List.range n).all fun t => (fin t).2.reverse == par.getD t ["??"]
       | _ => false
     return ("OK", pv)
+  | "DLFEED", [tpath, fl, maxr, hdrs, bodyPath, cuts, mode, expect] =>
+    -- `<tpath>.before` = the target as it was before the op (the harness writes into tpath)
+    let tb ← readFile (tpath ++ ".before")
+    let ta ← (do if impl.isSome then readFile tpath else pure [])
+    let body ← readFile bodyPath
+    match Header.openFile Sha.zckHash tb, maxr.toInt?, (if hdrs == "-" then some [] else (hdrs.splitOn ",").mapM fun t => parseHex (if t == "e" then "-" else t)) with
+    | .ok th, some limit, some hlines =>
+      let valid0 : List Int := if fl == "-"
+        then (Reader.validateChecksums Sha.zckHash tb (Reader.openCtx th)).2.valid.map (fun v => if v == -1 then 0 else v)
+        else flagsOf fl
+      let hdrLen := th.lead + th.headerLen
+      let rchunks : List Range.Chunk := th.chunks.zipIdx.map fun (c, k) => ⟨c.number, c.start, c.compLen, valid0.getD k 0⟩
+      let rst := Range.missing hdrLen rchunks limit
+      let rtext := if rst.items.isEmpty then "-" else (Range.render rst.items).getD "-"
+      let req := rst.index.map (·.1)
+      let e : Dl.Env := { H := Sha.zckHash, rx := mkRx (impl.getD []), hdr := th, ridx := Dl.mkRidx rst.index 0 }
+      let st0 : Dl.St := { file := tb, pos := hdrLen, valid := valid0 }
+      let (hrets, st1) := Dl.feedHdrs e st0 hlines []
+      let frags := dlFragments body cuts
+      let (brets, st2) := Dl.feed e (mode == "stop") (mode == "clear") st1 frags []
+      let out := if st2.ub then "UB" else
+        s!"OK flags0={showFlags valid0} range={rtext} req={showNats req} hdr={showNats hrets} body={showNats brets} " ++
+        s!"flags={showFlags st2.valid} err={if st2.err then 1 else 0} dl={st2.dlChunkData}:{st2.writeInChunk}:" ++
+        s!"{match st2.tgtCheck with | some k => toString k | none => "-"} " ++
+        s!"mp={st2.mp.state}:{st2.mp.length}:{match st2.mp.buffer with | some b => b.length | none => 0} ub=0 " ++
+        s!"file={PredRead.showBytes st2.file}"
+      let pv := impl.map fun i =>
+        match i with
+        | "OK" :: rest =>
+          match kv rest "flags0", kv rest "flags", kv rest "req", kv rest "body", kv rest "ub", kv rest "range" with
+          | some f0, some f1, some rq, some br, some ub, some irange =>
+            let reqI := if rq == "-" then [] else (rq.splitOn ",").filterMap (·.toNat?)
+            let rets := if br == "-" then [] else (br.splitOn ",").filterMap (·.toNat?)
+            let accepted := rets.length == frags.length && (rets.zip frags).all fun (r, fr) => r == fr.length
+            ub == "0" && PredDl.c05_ok Sha.zckHash tb ta (flagsOf f0) (flagsOf f1) reqI accepted (parseExpect expect irange)
+          | _, _, _, _, _, _ => false
+        | ["ERR", "range"] => rst.index.isEmpty
+        | _ => false
+      return (out, pv)
+    | _, _, _ => return ("ERR open", impl.map fun i => i == ["ERR", "open"])
   | "META", [path] =>
     let f ← readFile path
     let m := Header.openFile Sha.zckHash f
